@@ -354,8 +354,8 @@ pub fn run(ctx: &mut Ctx) -> (&'static str, String, bool) {
         },
     };
     let thorough = ctx.tier == crate::ctx::Tier::Thorough;
-    let bases = ctx.tier.pick(3u64, 12u64);
-    let randoms = ctx.tier.pick(150u64, 4000u64);
+    let bases = ctx.tier.pick(6u64, 20u64);
+    let randoms = ctx.tier.pick(800u64, 20_000u64);
     let base_rng = ctx.rng.fork(2);
     let c = &c;
     let results: Vec<(Part, String, usize, BTreeSet<String>)> = c
